@@ -10,12 +10,12 @@ CLAIMED = {
         '(loop invariants + termination measure on the real loops), that the round trip is the identity and that distinct positions get distinct labels; '
         'LetterIdGenerator.next hands out D^-1(index) and advances the index. Every obligation is generated from the AST of the real functions on every run.',
    note='Trusted: the pyvc VC generator and its string axioms, z3/cvc5; str.lower modelled for ASCII (precondition of letter_id_to_number, established by its callers). '
-        'The label->matcher half of C14 is covered under C05/C14 layer L when built.',
+        'Label -> matcher: ConnectionMatcher.matches is proved to compare the prefix with the label (`unknown` without a connection); that `A:` parses to such a matcher is part of the bounded parser comparison of C05.',
    technique='contract-based deductive verification: self-generated VCs from the real AST + sidecar contracts, z3 (cvc5 fallback); native replay of counterexamples'),
  'C11': dict(level='proof', design='6.C11',
    text='For all recorded histories, matchers and caps N >= 0: _get_matching (real loop, invariant over a recursive count spec + two induction lemmas) returns exactly the last min(N, total) matching messages oldest first with honest counts; '
         'show_messages prints header, exactly those lines in order (ghost shown-trace) and the count line; list_command leaves filter, breakpoint, selection and every recorded list unchanged (frame obligations).',
-   note='Trusted: Matcher.matches / __str__ interface contracts (pure, total; per-class refinement is C05/C18), stream write = one trace entry, matcher.parse/join/simplify frame contracts, pyvc + z3. Negative caps are outside the precondition (and the property).',
+   note='Trusted: Matcher.matches / __str__ interface contracts for the matcher given (every matches override is verified against its own defining contract under C05), stream write = one trace entry, matcher.parse (bounded contract) and simplify frame contracts, pyvc + z3; matcher.join is verified (C12). Negative caps are outside the precondition (and the property).',
    technique='contract-based deductive verification of the real controller code: loop invariants, recursive spec functions with proved induction lemmas, frame obligations; z3'),
  'C16': dict(level='proof', design='6.C16',
    text='Message.__init__ fixes the time base at the first message and stores log time minus base (shift-invariance lemma over reals); _show_message emits a separator entry iff the gap to the previously shown message exceeds one second and remembers the time shown; show_messages resets it before and after a listing, consecutive lines of one listing are separated iff their gap exceeds one second, none before the first.',
@@ -34,7 +34,7 @@ CLAIMED = {
  'C03': dict(level='proof', design='6.C03',
    text='destroy sets alive False / destroy_time; lifespan is destroy minus create; Message.resolve destroys exactly the latest incarnation of the id named by delete_id on the connection display (sent or received) at the message time and nothing else; '
         'create_object destroys only a live server-range predecessor; at most the last incarnation of an id is alive in every reachable table (inv_conn).',
-   note='alive is written only by ObjectBase.__init__/destroy (frame obligations of every verified function; global writer scan pending). Floats as reals. The destroyed-annotation text of Message.__str__ is C17 territory.',
+   note='alive / destroy_time / generation are written only by the constructors and destroy(): frame obligations of every verified function, plus a syntactic writer scan over all non-test modules run with every check (a runner, not a proof). Floats as reals. The destroyed-annotation text of Message.__str__ is C17 territory.',
    technique='contract-based deductive verification (invariant + frames); z3'),
  'C04': dict(level='proof', design='6.C04',
    text='Manager invariant (name generator index == number of connections ever created, connection k is named by the bijective base-26 letters of k, open connections are open, distinct and have well-formed tables) is established by __init__ and preserved by open_connection / close_connection / message; '
@@ -84,7 +84,7 @@ CLAIMED = {
    text='connection_got_new_message sends exactly one pause request (and a Stopped-at notice) iff the selection agrees and the breakpoint matcher matches, and never resume/quit; through the verified chain ConnectionManager.message -> ConnectionImpl.message -> controller the registered ui state is paused iff that condition holds; '
         'Plugin.process_message clears the pause first, so the breakpoint stop() value is exactly that condition for this message; invoke_command runs gdb quit iff quit was requested, else continue iff resume was requested, else nothing (stays halted); resume/quit commands set exactly their flag; '
         'TerminalUI.run_until_stopped returns only when resumed or quit and issues only prompts.',
-   note='Assumed: disseminator delivery and wiring (ui state registered on the controller, sink = ConnectionManager, command sink = Controller), gdb reaction to stop()/continue/quit, CommandSink.process_command never requests pause (its dispatch is not yet under contract). Liveness (the prompt loop terminates) is not claimed.',
+   note='Assumed: disseminator delivery and wiring (ui state registered on the controller, sink = ConnectionManager, command sink = Controller), gdb reaction to stop()/continue/quit; that CommandSink.process_command never requests pause is assumed at call sites and evaluated as a bounded contract on Controller.process_command (generated command lines). Liveness (the prompt loop terminates) is not claimed.',
    technique='contract-based deductive verification with ghost ui/ext traces and wiring cells; z3'),
  'C15': dict(level='proof', design='6.C15',
    text='Plugin.process_message opens a connection in the sink exactly on first sight of its id (role from the get_registry direction), forwards under the message own connection id, leaves other entries untouched and raises nothing but what the sink raises; '
